@@ -167,11 +167,11 @@ PROPS = {
     "C08": entry(
         "Key-value separation is invisible to the user",
         [ib("all", 400, 15000, blob=1, ops=60), ib("reloc", 1500, 40000, blob=1, ops=70), ib("snap", 300, 10000, blob=1, ops=60), ib("filter", 200, 8000, blob=1, ops=60), ib("ingest", 300, 10000, blob=1, ops=60)],
-        "I-B on key-value-separated trees (threshold 0/1/8/12/1000, blob file target 1 B .. 1 KiB, staleness 0.3, age cutoff 1.0): the same configuration-free model and ordered-map oracle as for standard trees; every stored pointer of every table of the current version AND of every version a held snapshot resolves to is decoded and resolved against that version's blob files and must yield the bytes written for that key and version; `reloc` profile: few keys, several live versions, blob files made partly stale by drop_range, relocating major compactions; non-trivial = >= 1 compaction and >= 2 flushes",
+        "I-B on key-value-separated trees (threshold 0/1/8/12/1000, blob file target 1 B .. 1 KiB, staleness 0.3, age cutoff 1.0): the same configuration-free model and ordered-map oracle as for standard trees; every stored pointer of every table of the current version AND of every version a held snapshot resolves to is decoded and resolved against that version's blob files and must yield the bytes written for that key and version; `reloc` profile: few keys, several live versions, ingestions (blobs stored with the local seqno 0) over flushed keys, blob files made partly stale by drop_range, relocating major compactions; non-trivial = >= 1 compaction and >= 2 flushes",
         TECH,
-        "c08_separation_invisible: for every op list (entries value / tombstone, no compaction filter) the run of a key-value-separated tree equals the run of a standard tree up to erasing the indirection tag — same accepted decisions, same point reads, same scans (c08_point_reads, c08_scans); c08_gc_stream_commutes.",
-        "with weak tombstones or compaction filters the simulation is validated by correspondence only (a weak tombstone does not annihilate with an indirection: space, not reads); pointer arithmetic (offsets, blob file bytes) is checked by resolution on the real files, not modelled",
-        "7 C08"),
+        "c08_separation_invisible: for every op list (entries value / tombstone, no compaction filter) the run of a key-value-separated tree equals the run of a standard tree up to erasing the indirection tag — same accepted decisions, same point reads, same scans (c08_point_reads, c08_scans); c08_gc_stream_commutes. C08r (relocation matching = drain_blobs + one scanner per rewritten blob file): c08r_fixed_matches_all — for ANY stored seqnos and any interleaving of pointers to different files, every pointer finds exactly its blob provided each file's pointers follow that file's order; c08r_fixed_never_wrong_blob — a success never copies another blob; c08r_legacy_counterexample — the merged scanner of the code before fix 4fe854b fails on finding F9's instance; c08r_legacy_ok_when_orders_agree.",
+        "with weak tombstones or compaction filters the simulation is validated by correspondence only (a weak tombstone does not annihilate with an indirection: space, not reads); pointer arithmetic (offsets, blob file bytes) is checked by resolution on the real files, not modelled; the relocation matching model (C08r) is tied to the code at tree level only (every pointer resolved after every real relocation; the F9 histories in corpus/C08), there is no function-level differential for drain_blobs",
+        "7 C08", modules=["C08", "C08r"]),
     "C09": entry(
         "Blob garbage statistics are exact and only unreferenced blob files are dropped",
         [ib("all", 400, 15000, blob=1, ops=60), ib("reloc", 1500, 40000, blob=1, ops=70), ib("drop", 300, 10000, blob=1, ops=60), ib("filter", 200, 8000, blob=1, ops=60)],
